@@ -526,6 +526,9 @@ func (e *Endpoint) WriteTo(p []byte, addr net.Addr) (int, error) {
 	return len(p), nil
 }
 
+// Writes is the number of WriteTo calls made so far (the index the next call will have in WriteFail).
+func (e *Endpoint) Writes() int { return int(e.writeN.Load()) }
+
 // Close implements net.PacketConn.
 func (e *Endpoint) Close() error {
 	e.once.Do(func() { close(e.closed) })
